@@ -209,6 +209,7 @@ func regenInstances(repoDir, tier string, sink *report.Sink) ([]*gen.Instance, e
 	vd := homeDir()
 	corpora := []regen.Corpus{
 		{Name: "corpus", Src: filepath.Join(vd, "corpus"), Module: "example.com/corpus", Cmds: [][]string{{".", "./..."}}, VRules: true},
+		{Name: "corpus-modifier", Src: filepath.Join(vd, "corpus_mod"), Module: "example.com/corpusmod", Cmds: [][]string{{".", "-genmode", "modifier", "./..."}}, VRules: true, Modifier: true},
 		{Name: "corpus-sourcemap", Src: filepath.Join(vd, "corpus"), Module: "example.com/corpus", Cmds: [][]string{{".", "-genmode", "source-map", "./..."}}, VRules: tier == "thorough"},
 	}
 	if tier == "thorough" {
